@@ -23,6 +23,184 @@ Definition eval (g : graph) (c : cfg) (cs : cbset) (d0 : list node) (tr : list e
   end.
 """
 
+_LINKS_PRELUDE = """From Oras Require Import Base.Prelude Generated.GC01 Model.CopySpec Model.CopyLinks.
+Local Open Scope nat_scope.
+Local Open Scope string_scope.
+Fixpoint nats_eqb (a b : list nat) : bool :=
+  match a, b with [], [] => true | x :: a', y :: b' => Nat.eqb x y && nats_eqb a' b' | _, _ => false end.
+(* per node: fields, the successor list and the flags (foreign, manifest) the harness gave to the acceptor *)
+(* removeForeignLayers on each successor list: the real function's output vs the in-place loop of the model *)
+Definition rfl_ok (flags : list bool) (l : list (list nat * list nat)) : bool :=
+  forallb (fun x => nats_eqb (remove_foreign_inplace (fun n => nth n flags false) (fst x)) (snd x)) l.
+Definition links_ok (l : list (mfields * (list nat * (bool * bool)))) : bool :=
+  forallb (fun x => match x with (f, (succ, (fo, mf))) =>
+     nats_eqb (successors f) succ && Bool.eqb (is_foreign_mt (f_mt f)) fo && Bool.eqb (is_manifest_mt (f_mt f)) mf end) l.
+"""
+
+
+def _links_goal(case):
+    f = case.split(" ")
+    lk = [x for x in f if x.startswith("lk=")]
+    if not lk or len(f) < 9:
+        return None
+    specs = f[5].split(";")
+    nodes = lk[0][3:].split(";")
+    if len(specs) != len(nodes):
+        return None
+    rows = []
+    for sp, nd in zip(specs, nodes):
+        a, _, c = sp.split("/")
+        mt, S, C, L, M, B = nd.split("|")
+        opt = lambda v: "None" if v[1:] == "-" else "(Some %s)" % v[1:]
+        lst = lambda v: "[" + "; ".join([] if v[1:] == "-" else v[1:].split("+")) + "]"
+        rows.append('(mkFields "%s" %s %s %s %s %s, (%s, (%s, %s)))' % (
+            mt, opt(S), opt(C), lst(L), lst(M), lst(B), _nats(c), _b("f" in a), _b("m" in a)))
+    goal = "links_ok [%s] = true" % "; ".join(rows)
+    rf = [x for x in f if x.startswith("rfl=")]
+    if rf:
+        flags = "[" + "; ".join(_b("f" in sp.split("/")[0]) for sp in specs) + "]"
+        pairs = []
+        for ent in rf[0][4:].split(";"):
+            nid, out = ent.split(":")
+            if "?" in out:
+                return "false = true"
+            succ = specs[int(nid)].split("/")[2]
+            pairs.append("(%s, [%s])" % (_nats(succ), "; ".join([] if out == "-" else out.split("+"))))
+        goal += " /\\ rfl_ok %s [%s] = true" % (flags, "; ".join(pairs))
+    return goal
+
+
+_PRO_PRELUDE = """From Oras Require Import Base.Prelude Model.CopySpec Model.CopyTop.
+Local Open Scope nat_scope.
+"""
+
+
+def prologue_check(d, tier, coq, build):
+    """Copy's prologue: the source reads the wrappers saw in the prologue and the initial proxy cache the acceptor was
+    given are what CopyTop.prologue_fetches / cache_after_resolve compute (vm_compute inside Coq)"""
+    want = 1500 if tier == "thorough" else 120
+    goals, seen = [], set()
+    with open(os.path.join(d, "cases.txt")) as f:
+        for l in f:
+            i, _, c = l.rstrip("\n").partition(" ")
+            p = c.split(" ")
+            pr = [x for x in p if x.startswith("pr=")]
+            if not pr or len(p) < 9 or p[3].startswith("-") and False:
+                continue
+            rf, r0, mp, kind, cfg, ok, ismf, empty, obs, wantp, cfgarch, sel = pr[0][3:].split(":")
+            if any(t == "CX" for t in p[7].split(",")[:1]) :
+                continue  # context already ended: the prologue may stop early
+            key = (pr[0], p[4])
+            if key in seen or (kind == "n" and rf == "0" and len(goals) > want // 4) or (kind != "i" and len(goals) >= 2 * want):
+                continue
+            seen.add(key)
+            pt = {"n": "PTNone", "l": "PTList", "o": "PTOther"}.get(kind) or "(PTImage %s %s)" % (cfg, _b(ok == "1"))
+            exp = "[" + "; ".join([] if obs == "-" else obs.split("+")) + "]"
+            goals.append((i, "prologue_fetches %s %s %s %s %s = %s" % (_b(rf == "1"), r0, mp, pt, _nats(p[4]), exp)))
+            if kind == "i" and sel != "?" and cfgarch != "-" or (kind == "i" and sel == "-" and ok == "0"):
+                wa, wv, wf = wantp.split(".")
+                wp = "(mkPlat %s 1 0 %s %s)" % (wa, wv, "[1]" if wf == "1" else "[]")
+                cp = "None" if cfgarch == "-" else "(Some (mkPlat %s 1 0 0 []))" % cfgarch
+                goals.append((i, "select_target %s (PVImage %s %s) %s = %s" % (mp, _b(ok == "1"), cp, wp, "None" if sel == "-" else "Some " + sel)))
+            goals.append((i, "cache_after_resolve %s %s %s %s = %s" % (_b(rf == "1"), _b(ismf == "1"), _b(empty == "1"), r0, _nats(p[4]))))
+            if len(goals) >= 4 * want:
+                break
+    vdir = os.path.join(build, "vm")
+    os.makedirs(vdir, exist_ok=True)
+    vf = os.path.join(vdir, "GC01_prologue.v")
+    with open(vf, "w") as f:
+        f.write(_PRO_PRELUDE)
+        for i, g in goals:
+            f.write("\n(* %s *)\nGoal %s.\nProof. vm_compute. reflexivity. Qed.\n" % (i, g))
+    p = subprocess.run(["coqc", "-R", coq, "Oras", "-w", "-notation-overridden", vf], cwd=vdir, timeout=900,
+                       stdout=subprocess.PIPE, stderr=subprocess.STDOUT, text=True)
+    with open(os.path.join(d, "prologue_check.txt"), "w") as f:
+        f.write("%d goals rc=%d\n%s" % (len(goals), p.returncode, p.stdout[-3000:]))
+    if p.returncode != 0:
+        return ["prologue check: the prologue's source reads / the initial proxy cache differ from CopyTop.prologue_fetches / "
+                "cache_after_resolve: %s" % p.stdout[-700:]]
+    if len(goals) < 20:
+        return ["prologue check: only %d goals" % len(goals)]
+    return []
+
+
+def refs_check(d, tier, coq, build):
+    """every reference string the destination was asked to set during a Copy is CopyTop.eff_ref srcRef dstRef"""
+    want = 1500 if tier == "thorough" else 300
+    goals, seen = [], set()
+    def lit(h):
+        if h == "-":
+            return "[]"
+        return "[" + "; ".join(str(int(h[i:i + 2], 16)) for i in range(0, len(h), 2)) + "]%N"
+    with open(os.path.join(d, "cases.txt")) as f:
+        for l in f:
+            i, _, c = l.rstrip("\n").partition(" ")
+            rs = [x for x in c.split(" ") if x.startswith("rs=")]
+            if not rs or rs[0] in seen:
+                continue
+            seen.add(rs[0])
+            src, dst, used = rs[0][3:].split(":")
+            for u in sorted(set(used.split("+"))):
+                goals.append((i, "eff_ref %s %s = %s" % (lit(src), lit(dst), lit(u))))
+            if len(goals) >= want:
+                break
+    vdir = os.path.join(build, "vm")
+    os.makedirs(vdir, exist_ok=True)
+    vf = os.path.join(vdir, "GC01_refs.v")
+    with open(vf, "w") as f:
+        f.write(_PRO_PRELUDE)
+        for i, g in goals:
+            f.write("\n(* %s *)\nGoal %s.\nProof. vm_compute. reflexivity. Qed.\n" % (i, g))
+    p = subprocess.run(["coqc", "-R", coq, "Oras", "-w", "-notation-overridden", vf], cwd=vdir, timeout=900,
+                       stdout=subprocess.PIPE, stderr=subprocess.STDOUT, text=True)
+    with open(os.path.join(d, "refs_check.txt"), "w") as f:
+        f.write("%d goals rc=%d\n%s" % (len(goals), p.returncode, p.stdout[-3000:]))
+    if p.returncode != 0:
+        return ["reference check: a reference string given to dst.Tag / dst.PushReference is not CopyTop.eff_ref srcRef dstRef: %s" % p.stdout[-600:]]
+    if len(goals) < 3:
+        return ["reference check: only %d goals" % len(goals)]
+    return []
+
+
+def links_check(d, tier, coq, build):
+    """every distinct generated graph: the regenerated link schema applied to the generator's fields gives the
+    successor lists and flags that the acceptor was run with (vm_compute inside Coq)"""
+    want = 2000 if tier == "thorough" else 150
+    seen, goals = set(), []
+    with open(os.path.join(d, "cases.txt")) as f:
+        for l in f:
+            i, _, c = l.rstrip("\n").partition(" ")
+            p = c.split(" ")
+            if len(p) < 9:
+                continue
+            key = (p[5], [x for x in p if x.startswith("lk=")][:1] and [x for x in p if x.startswith("lk=")][0])
+            if key in seen or not key[1]:
+                continue
+            seen.add(key)
+            g = _links_goal(c)
+            if g:
+                goals.append((i, g))
+            if len(goals) >= want:
+                break
+    vdir = os.path.join(build, "vm")
+    os.makedirs(vdir, exist_ok=True)
+    vf = os.path.join(vdir, "GC01_links.v")
+    with open(vf, "w") as f:
+        f.write(_LINKS_PRELUDE)
+        for i, g in goals:
+            f.write("\n(* %s *)\nGoal %s.\nProof. vm_compute. repeat split; reflexivity. Qed.\n" % (i, g))
+    p = subprocess.run(["coqc", "-R", coq, "Oras", "-w", "-notation-overridden", vf], cwd=vdir, timeout=1500,
+                       stdout=subprocess.PIPE, stderr=subprocess.STDOUT, text=True)
+    with open(os.path.join(d, "links_check.txt"), "w") as f:
+        f.write("%d graphs rc=%d\n%s" % (len(goals), p.returncode, p.stdout[-3000:]))
+    if p.returncode != 0:
+        return ["link schema check: the schema regenerated from content.Successors / IsManifest / IsForeignLayer, applied to the "
+                "generator's link fields, does not give the successor lists / flags of %d graphs: %s" % (len(goals), p.stdout[-600:])]
+    if len(goals) < 20:
+        return ["link schema check: only %d graphs" % len(goals)]
+    return []
+
+
 _KIND = {"pre": "CPre", "post": "CPost", "skip": "CSkip", "mounted": "CMounted", "mountfrom": "CMountFrom"}
 
 
@@ -72,6 +250,8 @@ def _goal(case, out):
         fl.append(_b("f" in a)); ism.append(_b("m" in a)); dk.append(b); succs.append(_nats(c))
     evs = []
     for t in ([] if trace == "-" else trace.split(",")):
+        if t == "CX":
+            return None  # cancellation layer (Model/CopyCancel.v): not re-evaluated by this hook
         e = _event(t)
         if e is None:
             return None
@@ -135,5 +315,7 @@ def vm_sample(gen, runfn="run_opt", imports=""):
                     % (len(goals), p.stdout[-600:])]
         if len(goals) < min(want, 20):
             return ["in-Coq re-evaluation: only %d cases could be sampled" % len(goals)]
+        if gen == "GC01":
+            return links_check(d, tier, coq, build) + prologue_check(d, tier, coq, build) + refs_check(d, tier, coq, build)
         return []
     return hook
